@@ -23,6 +23,7 @@ SHAPES = {
     "s1": [("a", [("x", [("x", []), ("y", [])]), ("y", [])]), ("b", [("x", [("z", [])])])],
     "s2": [("x", [("x", [("x", [])])]), ("y", [])],
     "s3": [("a", []), ("b", [("a", [("b", [])]), ("c", [])]), ("c", [("a", [])])],
+    "s4": [("x", [("x", [("x", [("x", [("y", [])])]), ("y", [])])]), ("y", [])],      # depth 5
 }
 FILTERS = [None, "a", "x", "y", "b", "nope"]
 
@@ -131,7 +132,7 @@ def _nav_sources(blk, path):
 # ---------------------------------------------------------------------------
 def _ob_search(si: int, limit: int, unlimited: bool, fi: int) -> bool:
     """
-    pre: 0 <= si < 12
+    pre: 0 <= si < 14
     pre: 0 <= fi < 6
     post: __return__
     """
@@ -321,7 +322,7 @@ def _ob_referring_source(b1: bool, b2: bool, b3: bool, b4: bool, b5: bool, b6: b
     return True
 
 
-_TREES = [(k, s) for k in ("sections", "sources") for s in ("s1", "s2", "s3")]
+_TREES = [(k, s) for k in ("sections", "sources") for s in ("s1", "s2", "s3", "s4")]
 
 
 def validate():
@@ -359,7 +360,7 @@ def _real(fn_name, args):
 
 OBLIGATIONS = [
     Ob("bfs_search", _ob_search, timeout=900,
-       partition_by_tier={"quick": [(k, s, fi) for k in ("sections", "sources") for s in ("s1", "s2")
+       partition_by_tier={"quick": [(k, s, fi) for k in ("sections", "sources") for s in ("s1", "s4")
                                     for fi in (0, 2, 3, 5)],
                           "thorough": [(k, s, fi) for k, s in _TREES for fi in range(6)]},
        functions=["nixio.util.find._find_sections", "nixio.util.find._find_sources",
